@@ -300,6 +300,8 @@ package stgutg
 //@ func EstablishPDU
 //@ prop C02
 //@ behavior trace
+//@ call GetUlNasTransport_PduSessionEstablishmentRequest slice (sNssai *models.Snssai, sst int32, sd string): sNssai != nil && sNssai.Sst == sst && sNssai.Sd == sd
+//@ call GetPDUSessionResourceSetupResponse gtp (ipv4 string, gnb_gtp string): ipv4 == gnb_gtp
 //@ call ManageError completes (err error): err == nil || vc.Faulted()
 //@ shape ue.Supi 20
 //@ requires supi: ids.IsImsiSupi(ue.Supi)
@@ -318,6 +320,7 @@ package stgutg
 //@ func ReleasePDU
 //@ prop C02
 //@ behavior trace
+//@ call GetUlNasTransport_PduSessionReleaseComplete slice (sNssai *models.Snssai, sst int32, sd string): sNssai != nil && sNssai.Sst == sst && sNssai.Sd == sd
 //@ call ManageError completes (err error): err == nil || vc.Faulted()
 //@ shape ue.Supi 20
 //@ requires supi: ids.IsImsiSupi(ue.Supi)
@@ -335,6 +338,7 @@ package stgutg
 //@ func ServiceRequest
 //@ prop C02
 //@ behavior trace
+//@ call GetInitialContextSetupResponseForServiceRequest gtp (ipv4 string, gnb_gtp string): ipv4 == gnb_gtp
 //@ call ManageError completes (err error): err == nil || vc.Faulted()
 //@ shape ue.Supi 20
 //@ requires supi: ids.IsImsiSupi(ue.Supi)
@@ -371,6 +375,34 @@ package stgutg
 //@ assigns global free5gclib/nas/security/snow3g.lfsr free5gclib/nas/security/snow3g.fsm tglib/ngapTestpacket.TestPlmn
 //@ ensures ngap: vc.GhostLen("ngap.built") == 1 && trace.Is(vc.GhostBytes("ngap.built", 0), trace.NGSetupRequest, int64(bitlength), 0, 0)
 //@ ensures nonas: vc.GhostLen("nas.built") == 0 && vc.GhostLen("nas.protect") == 0
+
+// The UE deregisters under its own identity: the SUCI of its SUPI for the configured MNC length.
+//@ func DeregisterUE
+//@ prop C02
+//@ behavior ids2
+//@ proofonly
+//@ shape mnc 2
+//@ shape ue.Supi 20
+//@ requires supi: ids.IsImsiSupi(ue.Supi)
+//@ driver
+//@ assumepre
+//@ nosafety
+//@ assigns global free5gclib/nas/security/snow3g.lfsr free5gclib/nas/security/snow3g.fsm
+//@ call GetDeregistrationRequest suci (mobileIdentity5GS nasType.MobileIdentity5GS, ue *tglib.RanUeContext, mnc string): vcIsSuciOf(mobileIdentity5GS, ue.Supi, len(mnc))
+
+// The UE deregisters under its own identity: the SUCI of its SUPI for the configured MNC length.
+//@ func DeregisterUE
+//@ prop C02
+//@ behavior ids3
+//@ proofonly
+//@ shape mnc 3
+//@ shape ue.Supi 20
+//@ requires supi: ids.IsImsiSupi(ue.Supi)
+//@ driver
+//@ assumepre
+//@ nosafety
+//@ assigns global free5gclib/nas/security/snow3g.lfsr free5gclib/nas/security/snow3g.fsm
+//@ call GetDeregistrationRequest suci (mobileIdentity5GS nasType.MobileIdentity5GS, ue *tglib.RanUeContext, mnc string): vcIsSuciOf(mobileIdentity5GS, ue.Supi, len(mnc))
 
 // ---- the procedures as seen by main(): they return (or end the process); the UE may have changed ----
 //@ func ManageNGSetup
